@@ -1513,7 +1513,7 @@ int cms_enveloped_data_encrypt_to_der(
 	const uint8_t *shared_info2, size_t shared_info2_len,
 	uint8_t **out, size_t *outlen)
 {
-	uint8_t rcpt_infos[1024]; // 到底需要多大？				
+	uint8_t rcpt_infos[4096]; // about 230 bytes per recipient plus the issuer name				
 	size_t rcpt_infos_len = 0;
 	uint8_t *p = rcpt_infos;
 	size_t len = 0;
@@ -1747,7 +1747,7 @@ int cms_signed_and_enveloped_data_encipher_to_der(
 	const uint8_t *shared_info2, size_t shared_info2_len,
 	uint8_t **out, size_t *outlen)
 {
-	uint8_t rcpt_infos[2048]; // about 230 bytes per recipient
+	uint8_t rcpt_infos[4096]; // about 230 bytes per recipient plus the issuer name
 	size_t rcpt_infos_len = 0;
 	int digest_algors[] = { OID_sm3 };
 	size_t digest_algors_cnt = sizeof(digest_algors)/sizeof(int);
